@@ -13,7 +13,7 @@ EXPLANATION = ("Bounded symbolic execution of the MIR of SortMetric::metric / po
                "maximum-weight row->column injection); the oracle compares the returned assignment with every alternative "
                "one-to-one assignment.")
 ASSUMPTIONS = ["kuhn_munkres returns a maximum-weight assignment (contract of the pathfinding crate; a bug inside it is outside the claim)",
-               "stream of <= 3 results over <= 2 candidates x <= 2 tracks (thorough: 2 candidates x 3 tracks); candidate and track ids disjoint, > 0",
+               "stream of <= 3 results over <= 2 candidates x <= 2 tracks; candidate and track ids disjoint, > 0",
                "weights: attribute_metric from the grid {0, .125, .25, .3125, .375, .5, .75, .875} selected by a symbolic index (the i64 conversion x10^6 is executed and constant-folded per grid value); threshold any i64 in (0, 10^9]",
                "track_num >= number of distinct tracks in the stream; candidate_num >= distinct candidates"]
 OUTSIDE = ["the IoU / Mahalanobis numbers themselves (C07, C08)", "larger matrices", "whole tracker histories"]
@@ -376,7 +376,7 @@ MIR = [
     MQ("c02_postprocess", "quick", q_postprocess, "postprocess_distances drops the pairs that failed the gate", "3 results, each with/without weight", [SM + "postprocess_distances"], replay=_replay_gate),
 ]
 for (nc, nt, nr, ex, tier) in [(1, 1, 1, 0, 'quick'), (1, 2, 2, 0, 'quick'), (2, 1, 2, 0, 'quick'), (2, 2, 2, 0, 'quick'), (2, 2, 2, 2, 'quick'), (2, 2, 3, 0, 'quick'),
-                               (2, 2, 3, 2, 'quick'), (2, 2, 4, 0, 'deep'), (3, 2, 3, 0, 'deep'), (2, 3, 3, 0, 'thorough')]:   # deep: single z3 queries hit the 120 s cap under load (run 2)
+                               (2, 2, 3, 2, 'quick'), (2, 2, 4, 0, 'deep'), (3, 2, 3, 0, 'deep'), (2, 3, 3, 0, 'deep')]:   # deep: single z3 queries hit the 120 s cap under load (run 2)
     MIR.append(MQ("c02_assign_c%d_t%d_r%d%s" % (nc, nt, nr, "_x%d" % ex if ex else ""), tier, _mk_assignment(nc, nt, nr, ex),
                   "SortVoting::winners: one answer per candidate of the stream, no track twice, maximum total weight (unmatched = threshold)",
                   "%d candidates x %d tracks, stream of %d results (ids chosen by z3, duplicates allowed, weight Some/None), track_num = tracks + %d" % (nc, nt, nr, ex),
